@@ -286,6 +286,12 @@ func DecodeClaimsFromJSON(buf []byte) (IClaims, error) {
 		return nil, err
 	}
 
+	// JSON null "decodes" into anything without an error, but it is not a
+	// claims object
+	if decoded == nil {
+		return nil, errors.New("JSON claims-set must be an object, found null")
+	}
+
 	var found IProfile
 
 	declared := false // buf carries a (non-null) profile claim
